@@ -255,6 +255,8 @@ package parser
 //@   ensures[C03 C08] pending-here-documents-are-not-dropped-at-the-end-of-input: tok == 0 && old(l.heredoc.n) != 0 ==> returnsmethod("lexHeredoc")
 //@   ensures[C08] a-substitution-does-not-end-with-a-here-document-pending: (tok == ')' || tok == RAE) && l.cmdSubst != 0 && old(len(l.stack)) == 1 ==> old(l.heredoc.n) == 0
 //@   ensures[C07 C08] pending-here-documents-are-read-at-the-newline: tok == '\n' && old(l.heredoc.n) != 0 ==> returnsmethod("lexHeredoc")
+//@   ensures[C03 C07 C09] a-newline-inside-a-construct-separates-like-a-semicolon: tok == '\n' && old(l.heredoc.n) == 0 && (old(len(l.aliases)) != 0 || old(len(l.stack)) != 0) ==> returnsmethod("lexPipeline")
+//@   ensures[C07 C09] a-newline-token-reads-nothing-further: tok == '\n' && old(l.heredoc.n) == 0 ==> srcpos() == old(srcpos())
 //@   requires tok != NAME && tok != ASSIGNMENT_WORD
 //@   ensures[C07] newline-ends-the-command: tok == '\n' && old(l.heredoc.n) == 0 && old(len(l.aliases)) == 0 && old(len(l.stack)) == 0 ==> result == nil && srcpos() == old(srcpos())
 //@   requires tok == WORD || tok == IO_NUMBER || tok <= 0 || tokready(l)
